@@ -8,6 +8,22 @@ ALL = ["C%02d" % i for i in range(1, 20)]
 
 # id -> dict(category, technique, text, note, engine, design)
 CHECKS = {
+    "C11": dict(
+        category="model_checking",
+        engine="E2 + H1",
+        technique="stateless schedule exploration (hand-rolled, CHESS style): all await-point interleavings of k client tasks against the real Clock actor, re-execution from choice prefixes, deviation-bounded for k=3",
+        text="k=2 client tasks with 2-4 calls each (get_time / register_ts of stamps in the same tick, 1 s ahead, near the drift limit, beyond it, with the clock's own node id) are explored over ALL interleavings of their await points; k=3 up to 2 (quick) / 3 (thorough) deviations; three injected wall-clock behaviours (stalled, ticking, jumping backwards). Every execution is checked: stamps pairwise distinct, strictly increasing per task, every get_time invoked after a register_ts returned exceeds the registered stamp unless it was beyond the drift limit. Every 97th execution is run twice and must reproduce.",
+        note="Current-thread runtime, await-point granularity. Multi-threaded runtimes are argued equivalent to some FIFO enqueue order into the actor's channel (DESIGN.md), not explored.",
+        design="DESIGN.md section 3, C11",
+    ),
+    "C16": dict(
+        category="model_checking",
+        engine="E1/E2 + H4",
+        technique="exhaustive enumeration of event schedules (snapshot pushes, watcher runs, subscription point, read placements) around the real watch_membership_changes task, with a subscriber built exactly like DatacakeNode::membership_changes()",
+        text="All snapshot sequences up to length 3 (quick) / 4 (thorough) over 6 snapshots (peers 1 and 2, two addresses for peer 1: joins, leaves, address changes, rejoin), every burst pattern, every subscription point, every subset of read positions. Oracle at quiescence: the subscriber's map (left applied before joined) equals the live peers with addresses; every departure appears in some `left` with the address the node had; a prompt subscriber never diverges. The lost-delta defect for late/slow subscribers is a recorded known finding (7 failure-mode keys); every other failure mode is reported as a violation.",
+        note="Membership enters as explicit snapshots on the channel chitchat would publish to; the gossip layer itself is not explored.",
+        design="DESIGN.md section 3, C16",
+    ),
     "C12": dict(
         category="exploration",
         engine="E4 + H3",
